@@ -5,7 +5,7 @@ open Lean VM.Driver
 def dispatch (j : Json) : Json :=
   match getStr j "fam" with
   | "result" => runResultCase j
-  | "schema" => runSchemaCase j
+  | "schema" | "schemamal" => runSchemaCase j
   | f => Json.mkObj [("bad", Json.str s!"unknown family {f}")]
 
 partial def loop (hin : IO.FS.Stream) (hout : IO.FS.Stream) : IO Unit := do
